@@ -55,7 +55,20 @@ def recip(x, a=2.0, b=1.0):
     return a / (1.0 + x * x) + b
 
 
+def linear_ac(x, a=1.0, c=0.5):
+    _tick()
+    return a * x + c
+
+
+def linear_cb(x, c=0.5, b=1.0):
+    _tick()
+    return b * x + c
+
+
 XY_MODELS = {
+    # (the same straight line under other parameter names / orders: overlap patterns of names in multi-fits)
+    "linear_ac": (linear_ac, lambda x, a, c: a + 0.0 * x, lambda x, a, c: 0.0 * x, ["a", "c"], [1.0, 0.5]),
+    "linear_cb": (linear_cb, lambda x, c, b: b + 0.0 * x, lambda x, c, b: 0.0 * x, ["c", "b"], [0.5, 1.0]),
     "linear": (linear, lambda x, a, b: a + 0.0 * x, lambda x, a, b: 0.0 * x, ["a", "b"], [1.0, 0.5]),
     "quadratic": (quadratic, lambda x, a, b, c: 2 * a * x + b, lambda x, a, b, c: 0.0 * x, ["a", "b", "c"], [0.5, 1.0, 2.0]),
     "expo": (expo, lambda x, A, k: A * k * np.exp(k * x), lambda x, A, k: A * k**3 * np.exp(k * x), ["A", "k"], [2.0, 0.3]),
@@ -79,6 +92,13 @@ def make_indexed(n, kind):
             return a * base + b
 
         return idx_affine, ["a", "b"], [1.5, 2.0], (lambda a, b: a * base + b)
+    if kind == "affine_ca":
+
+        def idx_affine_ca(c=2.0, a=1.5):
+            _tick()
+            return a * base + c
+
+        return idx_affine_ca, ["c", "a"], [2.0, 1.5], (lambda c, a: a * base + c)
     if kind == "power":
 
         def idx_power(s=2.0, q=0.5):
